@@ -141,9 +141,9 @@ Definition run_intfns : dispatcher := fun op args =>
     | [a] => match as_rat a with Some a => Some (sx_res sx_N (q_try_as_usize a)) | None => Some sx_bad end
     | _ => Some sx_bad
     end
-  else if opeq op "known-npr" then
+  else if opeq op "known-npr-old" then
     match args with
-    | [a] => match as_rat a with Some a => Some (sx_bool (known_C10_npr_negative_r a)) | None => Some sx_bad end
+    | [a] => match as_rat a with Some a => Some (sx_bool (known_C10_npr_negative_r_old a)) | None => Some sx_bad end
     | _ => Some sx_bad
     end
   else if opeq op "q-fib" then
@@ -173,13 +173,13 @@ Definition run_intfns : dispatcher := fun op args =>
       end
     | _ => Some sx_bad
     end
-  else if opeq op "q-round-exact" then
+  else if opeq op "q-round-old" then
     match args with
     | [m; a] =>
       match as_N m, as_rat a with
       | Some m, Some a =>
         match as_mode m with
-        | Some m => Some (sx_res sx_ratv (q_round_exact m a))
+        | Some m => Some (sx_res sx_ratv (q_round_old m a))
         | None => Some sx_bad
         end
       | _, _ => Some sx_bad
@@ -199,9 +199,9 @@ Definition run_intfns : dispatcher := fun op args =>
       end
     | _ => Some sx_bad
     end
-  else if opeq op "known-float" then
+  else if opeq op "known-float-old" then
     match args with
-    | [a] => match as_rat a with Some a => Some (sx_bool (known_C10_float a)) | None => Some sx_bad end
+    | [a] => match as_rat a with Some a => Some (sx_bool (known_C10_float_old a)) | None => Some sx_bad end
     | _ => Some sx_bad
     end
   (* ---- complex level (domain checks) ---- *)
